@@ -191,7 +191,16 @@ QueryVerdict0(q0, e, c0) ==
 
 (* KF_C11_neg_inverse: negated property sets with inverse members follow paths.py's pinned behaviour (pinned by a
    doctest in rdflib/paths.py) through the API, and raise "Invalid path in NegatedPath" through SPARQL *)
-QueryVerdict(q0, e, c) == QueryVerdict0(q0, e, c)
+(* the same answer through `for row in result`: one row per solution.  KF_C04_iter_drops_empty: Result.__iter__ leaves out the
+   solutions that bind no variable (pinned by the repository's test_issue554 / test_issue274) *)
+IterVerdict(e) ==
+  LET r == e.res IN
+  IF r.k # "select" \/ ~Has(r, "iter_n") THEN "ok"
+  ELSE IF r.len_n # Len(r.rows) THEN "LenAgrees"
+  ELSE IF r.iter_n = Len(r.rows) THEN "ok"
+  ELSE IF "KF_C04_iter_drops_empty" \in Devs /\ r.iter_n = Cardinality({i \in 1..Len(r.rows) : DOMAIN r.rows[i] # {}}) THEN "ok"
+  ELSE "IterationAgrees"
+QueryVerdict(q0, e, c) == LET v == QueryVerdict0(q0, e, c) IN IF v # "ok" THEN v ELSE IterVerdict(e)
 PathDev(e) == "KF_C11_neg_inverse" \in Devs /\ HasNegInv(e.p)
 PathVerdict(s, e) ==
   LET G == DGet(s.D, "D")  r == e.res IN
